@@ -153,9 +153,12 @@ def run(ctx):
         ex = roles(ctx, v).executor
         g = cfg_of(ex.node)
         tries = [t for t in own_nodes(ex.node) if isinstance(t, ast.Try) and
-                 any(isinstance(x, ast.Call) and isinstance(x.func, ast.Attribute) and x.func.attr == "_exit_states"
+                 any(isinstance(x, ast.Call) and isinstance(x.func, ast.Attribute) and x.func.attr in ("_exit_states", "_enter_states")
                      for s_ in t.body for x in ast.walk(s_))]
-        c.need(tries, f"transaction try in {ex.short}")
+        if not tries:
+            c.ob("R4", False, ex, "transaction-has-total-handler",
+                 f"{ex.short} runs exit / actions / enter outside any try: an aborted transition leaves a half-exited configuration", ex.node)
+            continue
         t = tries[0]
         hs = [h for h in t.handlers if handler_is_total(h)]
         c.ob("R4", bool(hs), ex, "transaction-has-total-handler", "the exit/actions/enter transaction has a total handler" if hs else
